@@ -1014,6 +1014,15 @@ class Wtp:
         )
         # Remove all comments
         text = re.sub(r"(?s)<!--.*?-->", "", text)
+        # <onlyinclude> sections, if present, are the only text that will be
+        # transcluded; everything outside them is ignored, also when they
+        # sit inside <noinclude> (documentation around the payload), so they
+        # are selected before <noinclude> is removed.
+        onlys = list(
+            re.finditer(r"(?is)<onlyinclude\s*>(.*?)</onlyinclude\s*>", text)
+        )
+        if onlys:
+            text = "".join(m.group(1) for m in onlys)
         # Remove all text inside <noinclude> ... </noinclude>
         text = re.sub(r"(?is)<noinclude\s*>.*?</noinclude\s*>", "", text)
         # Handle <noinclude> without matching </noinclude> by removing the
